@@ -154,6 +154,15 @@ def main(run):
                 run.prove(f"{op}[n={n},ids={tag}]", GS.sc_game_bulk_set, {"n": n, "op": op, "coalitions": ids})
             if ids is None or len(ids) <= 4 or not quick:
                 run.prove(f"bulk_getters[n={n},ids={tag}]", GS.sc_game_bulk_getters, {"n": n, "coalitions": ids}, max_paths=64)
+        # the protocol declares Iterable[Coalition]: one-shot iterables must behave like lists
+        some = [l for l in lists if l][:3]
+        for ids in some:
+            tag = ",".join(map(str, ids))
+            for kind in ("tuple", "generator", "map", "iter"):
+                run.prove(f"bulk_getters[n={n},ids={tag},{kind}]", GS.sc_game_bulk_getters, {"n": n, "coalitions": ids, "kind": kind}, max_paths=64)
+            for kind in ("generator", "map"):
+                for op in BULK:
+                    run.prove(f"{op}[n={n},ids={tag},{kind}]", GS.sc_game_bulk_set, {"n": n, "op": op, "coalitions": ids, "kind": kind})
         if n <= 3 or not quick:
             run.prove(f"algebra[n={n}]", GS.sc_game_algebra, {"n": n})
         run.prove(f"add[n={n}]", GS.sc_game_add, {"n": n})
